@@ -19,10 +19,19 @@ import (
 
 func tryReplay(verif, repo, prop string, r OblResult, replayPath string) bool {
 	c := r.Contract
-	if c == nil || c.Replay == "" || r.Status != "failed" {
+	if c == nil || r.Status != "failed" {
 		return false
 	}
-	f := strings.Fields(c.Replay)
+	tmplName := c.Replay
+	for label, t := range c.ReplayFor {
+		if strings.Contains(r.Name, "["+label+"]") {
+			tmplName = t
+		}
+	}
+	if tmplName == "" {
+		return false
+	}
+	f := strings.Fields(tmplName)
 	tmplPath := filepath.Join(verif, "replay", f[0]+".go.tmpl")
 	tb, err := os.ReadFile(tmplPath)
 	if err != nil {
